@@ -28,6 +28,16 @@ enum AState {
         /// poll point: enabled only once the global activity counter has moved past this value
         poll_seen: Option<u64>,
     },
+    /// inside an operation that blocks for real (a send into a full channel) until the
+    /// scheduler's next action on `detail` wakes it; `woken`: the scheduler has already
+    /// accounted for the wake-up (the actor counts as running again)
+    Blocked {
+        site: &'static str,
+        detail: u128,
+        woken: bool,
+        /// the scheduler has given the thread time to show that it did not block after all
+        settled: bool,
+    },
     Done,
 }
 
@@ -78,6 +88,7 @@ struct Inner {
     task_hits: HashMap<(usize, &'static str), u64>,
     note_cb: Option<Arc<dyn Fn(&'static str, &str) + Send + Sync>>,
     activity: u64,
+    unexpected_wakes: u64,
 }
 
 pub struct SimCtrl {
@@ -143,6 +154,7 @@ impl SimCtrl {
                 task_hits: HashMap::new(),
                 note_cb: None,
                 activity: 0,
+                unexpected_wakes: 0,
             }),
             sched_cv: Condvar::new(),
         }
@@ -269,7 +281,30 @@ impl SimCtrl {
     pub fn wait_quiescent(&self) -> Result<(), String> {
         let mut g = self.lock();
         let mut waited = 0u32;
-        while g.pending > 0 || g.running > 0 {
+        loop {
+            if g.pending == 0 && g.running == 0 {
+                // an actor that has just announced a blocking operation gets a moment to show
+                // that the operation did not block after all (changed code: a send that gives
+                // up on a full buffer); the unchanged code always blocks, so this wait never
+                // decides anything there
+                let epoch = g.epoch;
+                let fresh = g.actors.iter().any(|a| a.epoch == epoch && matches!(a.state, AState::Blocked { woken: false, settled: false, .. }));
+                if !fresh {
+                    break;
+                }
+                let (ng, _) = self.sched_cv.wait_timeout(g, Duration::from_millis(3)).unwrap_or_else(|e| e.into_inner());
+                g = ng;
+                if g.pending == 0 && g.running == 0 {
+                    for a in g.actors.iter_mut() {
+                        if a.epoch == epoch {
+                            if let AState::Blocked { woken: false, settled, .. } = &mut a.state {
+                                *settled = true;
+                            }
+                        }
+                    }
+                }
+                continue;
+            }
             let (ng, to) = self
                 .sched_cv
                 .wait_timeout(g, Duration::from_millis(500))
@@ -297,6 +332,7 @@ impl SimCtrl {
                 let st = match &a.state {
                     AState::Running => "running".to_string(),
                     AState::Parked { site, .. } => format!("parked@{}", site),
+                    AState::Blocked { site, woken, .. } => format!("blocked@{}{}", site, if *woken { "(woken)" } else { "" }),
                     AState::Done => "done".to_string(),
                 };
                 format!("{}#{}:{}", a.kind, a.kidx, st)
@@ -399,6 +435,49 @@ impl SimCtrl {
                 _ => false,
             })
             .count()
+    }
+
+    /// The scheduler is about to do what wakes the actor blocked at (`site`, `detail`) - take a
+    /// frame from the channel it is sending into, or close that channel: from now on the actor
+    /// counts as running, so the next quiescence wait covers its way to its next sync point.
+    pub fn wake_blocked(&self, site: &'static str, detail: u128) -> bool {
+        let mut g = self.lock();
+        let epoch = g.epoch;
+        let mut hit = false;
+        for a in g.actors.iter_mut() {
+            if a.epoch != epoch {
+                continue;
+            }
+            if let AState::Blocked { site: s, detail: d, woken, .. } = &mut a.state {
+                if *s == site && *d == detail && !*woken {
+                    *woken = true;
+                    hit = true;
+                    break;
+                }
+            }
+        }
+        if hit {
+            g.running += 1;
+        }
+        hit
+    }
+
+    /// Actors currently blocked for real: (kind, index within kind, site, detail).
+    pub fn blocked_actors(&self) -> Vec<(&'static str, usize, &'static str, u128)> {
+        let g = self.lock();
+        g.actors
+            .iter()
+            .filter(|a| a.epoch == g.epoch)
+            .filter_map(|a| match &a.state {
+                AState::Blocked { site, detail, woken: false, .. } => Some((a.kind, a.kidx, *site, *detail)),
+                _ => None,
+            })
+            .collect()
+    }
+
+    /// Wake-ups of blocked actors that the scheduler had not announced (a determinism hazard).
+    pub fn unexpected_wakes(&self) -> u64 {
+        self.lock().unexpected_wakes
     }
 
     /// Release one OS actor and wait until it (and anything it spawned) has parked again.
@@ -606,6 +685,41 @@ impl xs::verif::Controller for SimCtrl {
 
     fn poll_point(&self, site: &'static str) {
         self.park(site, 0, None, true);
+    }
+
+    fn block_enter(&self, site: &'static str, detail: u128) {
+        let Some((idx, epoch)) = ACTOR.with(|a| a.get()) else {
+            return;
+        };
+        let mut g = self.lock();
+        if !g.active || g.epoch != epoch {
+            return;
+        }
+        *g.site_hits.entry(site).or_insert(0) += 1;
+        g.activity += 1;
+        g.actors[idx].state = AState::Blocked { site, detail, woken: false, settled: false };
+        g.running = g.running.saturating_sub(1);
+        self.sched_cv.notify_all();
+    }
+
+    fn block_exit(&self) {
+        let Some((idx, epoch)) = ACTOR.with(|a| a.get()) else {
+            return;
+        };
+        let mut g = self.lock();
+        if !g.active || g.epoch != epoch {
+            return;
+        }
+        if let AState::Blocked { woken, .. } = g.actors[idx].state {
+            if !woken {
+                // the operation returned although nothing the scheduler did made room: it did
+                // not block (or gave up); the actor simply counts as running again
+                g.unexpected_wakes += 1;
+                g.running += 1;
+            }
+            g.actors[idx].state = AState::Running;
+            self.sched_cv.notify_all();
+        }
     }
 
     fn active(&self) -> bool {
